@@ -1464,9 +1464,22 @@ func (h *h13) observe(m value.Map, probes []string, intsOnly bool) obs13 {
 			bad("contains", fmt.Sprintf("%q ~ m = %v err=%v, key present in entries: %v", k, v, err, present))
 		}
 		if len(es) > 0 {
-			v, err = h.mustGen("m.isAvail(j,k)", "m", "j", "k").Eval(m, value.String(es[0].k), kv)
-			if err != nil || v != value.Bool(present) {
-				bad("isAvail", fmt.Sprintf("m.isAvail(%q,%q)=%v err=%v", es[0].k, k, v, err))
+			// isAvail with several keys: all of them have to be available, wherever the missing one stands
+			j := value.String(es[len(es)-1].k)
+			for _, q := range []struct {
+				src  string
+				args []value.Value
+			}{
+				{"m.isAvail(j,k)", []value.Value{m, value.String(es[0].k), kv}},
+				{"m.isAvail(k,j)", []value.Value{m, j, kv}},
+				{"m.isAvail(j,k,j)", []value.Value{m, j, kv}},
+				{"m.isAvail(k,k,j)", []value.Value{m, j, kv}},
+			} {
+				names := []string{"m", "j", "k"}
+				v, err = h.mustGen(q.src, names...).Eval(q.args...)
+				if err != nil || v != value.Bool(present) {
+					bad("isAvail", fmt.Sprintf("%s with j=%q (present), k=%q gives %v err=%v, key k present in entries: %v", q.src, q.args[1], k, v, err, present))
+				}
 			}
 		}
 	}
@@ -1567,7 +1580,8 @@ func (h *h13) observe(m value.Map, probes []string, intsOnly bool) obs13 {
 	} else if err := json.Unmarshal(out, &dec); err != nil {
 		bad("export", "exported JSON does not parse: "+err.Error())
 	} else {
-		okExp := len(dec) == len(es) && strings.Count(string(out), "\":") >= len(es)
+		// the decoded map hides a key that is written twice: the token stream does not
+		okExp := len(dec) == len(es) && len(jsonTopLevelKeys(out)) == len(es)
 		for _, e := range es {
 			d, ok := dec[e.k]
 			switch e.v.(type) {
@@ -1583,6 +1597,41 @@ func (h *h13) observe(m value.Map, probes []string, intsOnly bool) obs13 {
 		}
 	}
 	return o
+}
+
+// jsonTopLevelKeys: the keys of the outermost object in the order they are written, duplicates included
+func jsonTopLevelKeys(data []byte) []string {
+	d := json.NewDecoder(strings.NewReader(string(data)))
+	depth := 0
+	expectKey := false
+	var keys []string
+	for {
+		t, err := d.Token()
+		if err != nil {
+			return keys
+		}
+		switch x := t.(type) {
+		case json.Delim:
+			if x == '{' || x == '[' {
+				depth++
+				expectKey = x == '{' && depth == 1
+			} else {
+				depth--
+				expectKey = depth == 1
+			}
+		case string:
+			if depth == 1 && expectKey {
+				keys = append(keys, x)
+				expectKey = false
+			} else if depth == 1 {
+				expectKey = true
+			}
+		default:
+			if depth == 1 {
+				expectKey = true
+			}
+		}
+	}
 }
 
 // canonEntsMulti keeps duplicates visible (sorted multiset)
